@@ -292,7 +292,37 @@ def check_byte_xor(ctx, rule, P):
         roots = {x.a[1] for a in zips[0].args for x in subterms(a) if x.op == "param"}
         both = roots == {fn.locals[1].get("name"), fn.locals[2].get("name")}
     others = [a for a in F.adapter_calls(fn) if a[1] in F.ELEMENT_DROPPING and a[1] != "zip"]
-    ctx.ob(rule, "helpers::byte_xor", (ok_loop or ok_map) and len(zips) == 1 and both and not others, "byte_xor yields a[i]^b[i] for every position of zip(arr1, arr2) (loop-push=%s, map/collect=%s)" % (ok_loop, ok_map), where=where(fn))
+    # the same walk by position: `for i in 0..min(a.len(), b.len()) { o.push(a[i] ^ b[i]) }` - the positions zip has
+    by_index = False
+    if ok_loop and not zips and len(pushes) == 1:
+        from . import guardrules as R
+
+        names = {fn.locals[1].get("name"), fn.locals[2].get("name")}
+        x = strip_sites(pushes[0].args[1])
+        ops = [B.peel(z) for z in x.a[1:3]]
+        srcs = R.loop_sources(fn)
+        if len(srcs) == 1 and all(z.op == "index" and B.peel(z.a[0]).op == "param" for z in ops) and {B.peel(z.a[0]).a[1] for z in ops} == names and ops[0].a[1] == ops[1].a[1]:
+            ix = B.peel(ops[0].a[1])
+            nx = ix.a[0].a[0] if (ix.op == "field" and ix.a[1] == "0" and ix.a[0].op == "downcast") else None
+            rng = B.peel(srcs[0][1])
+            while rng.op == "call" and B.cname(rng) == "IntoIterator::into_iter" and len(rng.a[1]) == 1:
+                rng = B.peel(rng.a[1][0])
+            if nx is not None and B.peel(nx).op == "call" and B.cname(B.peel(nx)) == "Iterator::next" and rng.op == "agg" and rng.a[0][0] == "adt" and rng.a[0][1] == "Range" and len(rng.a[1]) == 2 and B._const_int(rng.a[1][0]) == 0:
+                e = B.peel(rng.a[1][1])
+
+                def len_of(z):
+                    z = B.peel(z)
+                    if z.op == "call" and B.cname(z) in ("slice::<impl [T]>::len",) and len(z.a[1]) == 1 and B.peel(z.a[1][0]).op == "param":
+                        return B.peel(z.a[1][0]).a[1]
+                    return None
+
+                if e.op == "call" and B.cname(e) in ("core::min", "cmp::min", "Ord::min", "min") and len(e.a[1]) == 2:
+                    by_index = {len_of(z) for z in e.a[1]} == names
+                elif len_of(e) in names:
+                    # over one list's length (the other one is indexed by the same positions; a shorter one is the
+                    # abort census's business, as with the pinned debug assertion)
+                    by_index = True
+    ctx.ob(rule, "helpers::byte_xor", ((ok_loop or ok_map) and len(zips) == 1 and both and not others) or (by_index and not others), "byte_xor yields a[i]^b[i] for every position of zip(arr1, arr2) (loop-push=%s, map/collect=%s, by position over 0..min(len)=%s)" % (ok_loop, ok_map, by_index), where=where(fn))
 
 
 # ---------------------------------------------------------------------------
